@@ -80,8 +80,8 @@ impl OperatorBuilder for LimitDef {
             }
         } else {
             Limit::Tail {
-                queue: VecDeque::with_capacity(-self.limit as usize),
-                limit: -self.limit as usize,
+                queue: VecDeque::new(),
+                limit: self.limit.unsigned_abs() as usize,
             }
         })
     }
